@@ -103,9 +103,41 @@ package router
 //@ func (r *router) limiterAllowN(addr netip.Addr, n int) (err error)
 //@   trusted
 //@   modifies nothing
-//@ func (r *router) asyncSingleFlightPrefetch(q *dnsmsg.Question, remoteAddr netip.Addr, u *upstreamWrapper)
+// ---- prefetch (C19) -------------------------------------------------------------------------------------
+// prefetchCtl.m guards queue; reserve/done are the only accessors (atomic steps under the mutex).
+//@ func (c *prefetchCtl) reserve(key uint64) (ok bool)
+//@   props C19
+//@   requires c != nil && c.queue != nil
+//@   modifies obj(c.queue)
+//@   ensures [C19:single-flight] ok == !old(has(c.queue, key))
+//@   ensures [C19:reserved] has(c.queue, key)
+//@   ensures [C19:others-kept] forallkey(k, c.queue, k != key ==> has(c.queue, k) == old(has(c.queue, k)))
+
+//@ func (c *prefetchCtl) done(key uint64)
+//@   props C19
+//@   requires c != nil && c.queue != nil
+//@   modifies obj(c.queue)
+//@   ensures [C19:released] !has(c.queue, key)
+//@   ensures [C19:others-kept] forallkey(k, c.queue, k != key ==> has(c.queue, k) == old(has(c.queue, k)))
+
+//@ func (c *cacheCtl) keyForPrefetch(q *dnsmsg.Question, remoteAddr netip.Addr) (h uint64)
 //@   trusted
 //@   modifies nothing
+
+// A refresh goroutine is started only after reserve() returned true (so at most one per key is in
+// flight), with a private copy of the question; nothing on this path blocks or contacts the upstream.
+//@ func (r *router) asyncSingleFlightPrefetch(q *dnsmsg.Question, remoteAddr netip.Addr, u *upstreamWrapper)
+//@   props C19 C20
+//@   requires r != nil && q != nil && r.cache != nil && r.prefetch != nil && r.prefetch.queue != nil
+//@   ghost nGo int = 0
+//@   ghost nRes int = 0
+//@   ghost okRes bool = false
+//@   oncall reserve: nRes = nRes + 1
+//@   aftercall reserve: okRes = ret0
+//@   oncall Copy: nGo = nGo + 1
+//@   modifies obj(r.prefetch.queue)
+//@   ensures [C19:reserve-first] nRes == 1
+//@   ensures [C19:spawn-only-if-reserved] (nGo == 1) == okRes && nGo <= 1
 //@ func (c *cacheCtl) Get(ctx context.Context, q *dnsmsg.Question, rc *RequestContext) (m *dnsmsg.Msg, storedTime time.Time, expireTime time.Time)
 //@   trusted
 //@   requires c != nil && q != nil && rc != nil
@@ -238,3 +270,29 @@ package router
 //@   modifies *
 //@   ensures [C03:exactly-one-write] nW == 1
 //@   callsite Write: [C13:one-framed-write] len(arg1) >= 14 && len(arg1) - 2 <= 65535 && BE16(arg1, 0) == uint16(len(arg1) - 2)
+
+// the refresh goroutine: releases its private question and the reservation exactly once, on every path
+//@ closure router.asyncSingleFlightPrefetch$1
+//@   props C19 C20
+//@   requires r != nil && r.prefetch != nil && r.prefetch.queue != nil && qCopy != nil && len(qCopy.Name) <= 254 && u != nil && r.cache != nil && r.logger != nil && r.prefetchTotal != nil && r.ctx != nil
+//@   ghost nDone int = 0
+//@   ghost nRel int = 0
+//@   oncall done: nDone = nDone + 1
+//@   oncall ReleaseQuestion: nRel = nRel + 1
+//@   modifies *
+//@   ensures [C19:reservation-released-once] nDone == 1
+//@   ensures [C20:copy-released-once] nRel == 1
+//@   callsite done: [C19:same-key] arg1 == key
+//@   callsite doPrefetch: [C19:private-copy] arg1 == qCopy && arg3 == u
+
+//@ func (r *router) doPrefetch(q *dnsmsg.Question, remoteAddr netip.Addr, u *upstreamWrapper)
+//@   props C19 C08
+//@   requires r != nil && q != nil && len(q.Name) <= 254 && u != nil && r.cache != nil && r.logger != nil && r.prefetchTotal != nil && r.ctx != nil
+//@   ghost nStore int = 0
+//@   ghost fwdErr error = nil
+//@   aftercall forward: fwdErr = ret1
+//@   oncall Store: nStore = nStore + 1
+//@   modifies nothing
+//@   ensures [C08:failed-refresh-not-stored] fwdErr != nil ==> nStore == 0
+//@   callsite forward: [C10:prefetch-same-upstream] arg2 == u && arg3 == q
+//@   callsite Store: [C19:store-refreshed] arg1 == q
